@@ -205,3 +205,67 @@ def ref_read(mem, kind):
             reserved |= set(range(rs, rs + rn))
         pos = a
     return "none", "no-ndef-tlv"
+
+
+def layout(mem, kind):
+    """independent TLV walk over a raw image up to the NDEF TLV's tag byte:
+    returns an info dict like build() does (tlv_off, reserved, data_start,
+    data_end, avail) for the layout the image holds *now*, or None when the
+    image has no capability container / no NDEF TLV.  The NDEF TLV's own
+    length and value are not interpreted (a write in progress may have left
+    any length there); the data area end is capped at the physical size."""
+    mem = bytes(mem)
+    if kind == "t2t":
+        cc, start = 12, T2_DATA_START
+        if len(mem) < 16 or mem[cc] != 0xE1 or mem[cc + 1] >> 4 != 1:
+            return None
+        end = start + mem[cc + 2] * 8
+        reserved = set()
+    else:
+        cc, start = 8, T1_DATA_START
+        if len(mem) < 12 or mem[cc] != 0xE1 or mem[cc + 1] >> 4 != 1:
+            return None
+        end = (mem[cc + 2] + 1) * 8
+        reserved = set(range(104, 120 if end == 120 else 128))
+    declared_end = end
+    end = min(end, len(mem))
+    pos = start
+    while pos < end:
+        if pos in reserved:
+            pos += 1
+            continue
+        t = mem[pos]
+        if t == 0x00:
+            pos += 1
+            continue
+        if t == 0xFE:
+            return None
+        if t == 0x03:
+            return {"kind": kind, "tlv_off": pos, "reserved": reserved,
+                    "data_start": start, "data_end": end,
+                    "declared_end": declared_end, "phys": len(mem),
+                    "access": mem[cc + 3],
+                    "avail": [a for a in range(pos, end)
+                              if a not in reserved]}
+        if pos + 1 >= end:
+            return None
+        ln, hl = mem[pos + 1], 2
+        if ln == 0xFF:
+            if pos + 3 >= end:
+                return None
+            ln, hl = (mem[pos + 2] << 8) | mem[pos + 3], 4
+        val = bytearray()
+        a = pos + hl
+        while len(val) < ln:
+            if a >= end:
+                return None
+            if a not in reserved:
+                val.append(mem[a])
+            a += 1
+        if t in (1, 2) and ln == 3:
+            c = {"t": t, "page": val[0] >> 4, "offs": val[0] & 15,
+                 "size": val[1], "bpp": val[2] & 15}
+            rs, rn = ctrl_range(c)
+            reserved |= set(range(rs, rs + rn))
+        pos = a
+    return None
